@@ -16,6 +16,19 @@ Oracle, per frame (exactly the statement):
   4. aggregation is transparent: the leaf PDUs B's dispatch() is called with
      are the PDUs A collected, same number, same order, field-wise equal.
 Raw access point sockets are excepted by the statement; A has none.
+
+Two families of searches:
+  * 'full' / 'core' alphabets from the initial state (two established
+    connections, nothing queued), sizes {0,1,X-delta,X+1};
+  * 'deep': the same BFS started from *prepared non-initial states* (class
+    DeepSpec, table PREPS) that are built with the real calls: an accepted /
+    a connected data link connection that owes an acknowledgement (necessary
+    or voluntary, read / unread I PDUs, RW(local) 1 and 2), receiver-busy
+    toggled (RNR / RR owed), DM PDUs pending in the three places the library
+    keeps them, service discovery answers / requests pending - always on a
+    service access point *above* the ones that carry data - and an alphabet
+    whose sizes are chosen relative to the room that the PDUs already queued
+    leave in one aggregated frame (room 0..5 octets after the next PDU).
 """
 import errno
 
@@ -110,6 +123,7 @@ class Spec(object):
             w.bl.append(ls)
         w.la = A.socket(llc.LOGICAL_DATA_LINK)
         A.bind(w.la)                                   # 32 at A
+        self.build_more(w)                             # (deep: SAP 33)
         for i, dest in enumerate((16, 'urn:nfc:sn:c2')):
             cs = A.socket(llc.DATA_LINK_CONNECTION)
             A.setsockopt(cs, nfc.llcp.SO_RCVBUF, 2 - i)
@@ -125,11 +139,22 @@ class Spec(object):
                                    % (out.exc, out.done))
             w.c.append(cs)
             w.bc.append(acc[0])
+        self.build_done(w)
         w.m = [s.recv_miu for s in w.bc]               # connection MIUs of B
-        assert w.m == [128, M], w.m
+        assert w.m[:2] == [128, M], w.m
         assert [s.send_miu for s in w.c] == w.m
         assert lp.quiesce(A, B) is not None
+        self.prepare(w)
         return w
+
+    def build_more(self, w):
+        pass
+
+    def build_done(self, w):
+        pass
+
+    def prepare(self, w):
+        pass
 
     # -- alphabet -----------------------------------------------------------------
     def sizes(self, top):
@@ -215,6 +240,8 @@ class Spec(object):
                     if len(w.c[i].recv_queue) and \
                             w.c[i].recv_queue[0].name == 'I':
                         A.recv(w.c[i])
+            elif kind == 'rd':
+                A.recv(w.c[a[1]])          # enabled only with an I PDU queued
             elif kind == 'busy':
                 s = w.c[a[1]]
                 A.setsockopt(s, nfc.llcp.SO_RCVBSY,
@@ -281,6 +308,208 @@ class Spec(object):
             viol.append(('C10|drain|A not drained after 80 rounds',
                          dict(cfg=self.cfg)))
         return viol
+
+
+# -- prepared non-initial states ------------------------------------------------
+# Sockets of the deep world at A: la = SAP 32 (logical data link), SAP 33 =
+# listening socket + the connection accepted on it (index ACC), SAP 34 = c[0]
+# (index C0, connected by address, RW(local) 2, connection MIU 128), SAP 35 =
+# c[1] (index C1, connected by name, RW(local) 1, connection MIU M).
+C0, C1, ACC = 0, 1, 2
+ROOMS = (0, 1, 2, 3, 4, 5)
+
+# (name, RW(local) of the accepted connection, preparation steps).  Steps:
+#   ('rx', i, n, k)  the peer sends n I PDUs on connection i, the application
+#                    at A reads k of them
+#   ('busy', i)      setsockopt(SO_RCVBSY) toggled on connection i
+#   ('round',)       one link round (A -> B, B's applications, B -> A)
+#   ('pdu_in', x)    'dm35': CONNECT from an unknown SSAP to SAP 35 (DM in the
+#                    service access point's own send list, not size tested);
+#                    'backlog33': two CONNECT to SAP 33 (one in the backlog, DM
+#                    for the second in the listening socket's send queue);
+#                    'noname': CONNECT by unknown name (DM at SAP 1)
+#   ('snl_in', n)    SNL with n requests received (n answers pending)
+#   ('resolve', n)   resolve() of a name of n octets pending ('M-2': a request
+#                    that can never be sent)
+PREPS = (
+    ('base', 1, ()),
+    # (a) acknowledgement owed / I PDUs not yet read
+    ('acc1.read', 1, (('rx', ACC, 1, 1),)),
+    ('acc1.unread', 1, (('rx', ACC, 1, 0),)),
+    ('acc2.read1of1', 2, (('rx', ACC, 1, 1),)),
+    ('acc2.read2of2', 2, (('rx', ACC, 2, 2),)),
+    ('acc2.read1of2', 2, (('rx', ACC, 2, 1),)),
+    ('acc2.unread2', 2, (('rx', ACC, 2, 0),)),
+    ('dyn1.read', 1, (('rx', C1, 1, 1),)),
+    ('dyn1.unread', 1, (('rx', C1, 1, 0),)),
+    ('dyn2.read2of2', 1, (('rx', C0, 2, 2),)),
+    # (b) receiver busy toggled
+    ('acc1.busy', 1, (('busy', ACC),)),
+    ('acc1.read+busy', 1, (('rx', ACC, 1, 1), ('busy', ACC))),
+    ('acc1.unbusy', 1, (('busy', ACC), ('round',), ('busy', ACC))),
+    ('dyn1.busy', 1, (('busy', C1),)),
+    # (c) DM pending
+    ('dm.sap35', 1, (('pdu_in', 'dm35'),)),
+    ('dm.backlog33', 1, (('pdu_in', 'backlog33'),)),
+    ('dm.noname', 1, (('pdu_in', 'noname'),)),
+    # (d) service discovery answers / requests pending
+    ('sd.res1', 1, (('snl_in', 1),)),
+    ('sd.res33', 1, (('snl_in', 33),)),
+    ('sd.req20', 1, (('resolve', 20),)),
+    ('sd.reqlong', 1, (('resolve', 'M-2'),)),
+    ('sd.res1+req20', 1, (('snl_in', 1), ('resolve', 20))),
+    # combinations
+    ('acc1.read+dyn1.read', 1, (('rx', ACC, 1, 1), ('rx', C1, 1, 1))),
+    ('acc1.read+dm.sap35', 1, (('rx', ACC, 1, 1), ('pdu_in', 'dm35'))),
+    ('dyn1.read+sd.reqlong', 1, (('rx', C1, 1, 1), ('resolve', 'M-2'))),
+    ('dyn1.busy+sd.res1', 1, (('busy', C1), ('snl_in', 1))),
+)
+PREP = dict((name, (rw, steps)) for name, rw, steps in PREPS)
+
+
+class DeepSpec(Spec):
+    """cfg = (M, agf, prepared-state-name, 'deep')"""
+
+    DATA_DLCS = (ACC, C0)
+
+    def __init__(self, cfg):
+        Spec.__init__(self, (cfg[0], cfg[1], None, cfg[3]))
+        self.cfg = tuple(cfg)
+        self.prep = cfg[2]
+        self.acc_rw, self.steps = PREP[self.prep]
+
+    # -- the world: the basic one plus a listening socket on SAP 33 -----------
+    def build_more(self, w):
+        import nfc.llcp
+        import nfc.llcp.llc as llc
+        A, B = w.A, w.B
+        w.als = A.socket(llc.DATA_LINK_CONNECTION)
+        A.setsockopt(w.als, nfc.llcp.SO_RCVBUF, self.acc_rw)
+        A.bind(w.als, 33)
+        A.listen(w.als, 1)
+        w.bcl = B.socket(llc.DATA_LINK_CONNECTION)
+        B.setsockopt(w.bcl, nfc.llcp.SO_RCVMIU, self.M)
+        B.setsockopt(w.bcl, nfc.llcp.SO_RCVBUF, 2)
+        acc = []
+
+        def hook():
+            if len(w.als.recv_queue):
+                acc.append(A.accept(w.als))
+        out = lp.run_blocking(lambda: B.connect(w.bcl, 33), B, A,
+                              after_round=hook)
+        if not out.done or out.exc is not None or len(acc) != 1:
+            raise RuntimeError("C10 set-up: accept failed %r %r"
+                               % (out.exc, out.done))
+        w.acc = acc[0]
+
+    def build_done(self, w):
+        w.c.append(w.acc)
+        w.bc.append(w.bcl)
+        assert [s.addr for s in [w.la] + w.c] == [32, 34, 35, 33]
+        assert [s.recv_win for s in w.c] == [2, 1, self.acc_rw]
+        assert [s.send_win for s in w.c] == [2, 1, 2]
+
+    def prepare(self, w):
+        for st in self.steps:
+            self.prep_step(w, st)
+
+    def prep_step(self, w, st):
+        import nfc.llcp
+        import nfc.llcp.pdu as pdu
+        A, B = w.A, w.B
+        DW = nfc.llcp.MSG_DONTWAIT
+        kind = st[0]
+        if kind == 'rx':
+            i, n, k = st[1:]
+            for j in range(n):
+                B.send(w.bc[i], payload(3, 3 + j), DW)
+                fr = lp.xfer(B, A)
+                assert fr is not None and fr.error is None \
+                    and fr.sent.name == 'I', fr and fr.sent
+            assert [p.name for p in w.c[i].recv_queue] == ['I'] * n
+            for j in range(k):
+                assert A.recv(w.c[i]) == payload(3, 3 + j)
+        elif kind == 'busy':
+            s = w.c[st[1]]
+            A.setsockopt(s, nfc.llcp.SO_RCVBSY,
+                         not A.getsockopt(s, nfc.llcp.SO_RCVBSY))
+        elif kind == 'round':
+            viol = []
+            self.round(w, Observer(self, w, viol))
+            assert not viol and not w.dead, viol
+        elif kind == 'pdu_in':
+            if st[1] == 'dm35':
+                pdus = [pdu.Connect(35, 41)]
+            elif st[1] == 'backlog33':
+                pdus = [pdu.Connect(33, 41), pdu.Connect(33, 42)]
+            else:
+                pdus = [pdu.Connect(1, 42, sn=b'urn:nfc:sn:none')]
+            for p in pdus:
+                B.sendto(w.rb, p, None, DW)
+                fr = lp.xfer(B, A)
+                assert fr is not None and fr.error is None
+            if st[1] == 'dm35':
+                assert [p.name for p in A.sap[35].send_list] == ['DM']
+            elif st[1] == 'backlog33':
+                assert [p.name for p in w.als.recv_queue] == ['CONNECT']
+                assert [p.name for p in w.als.send_queue] == ['DM']
+            else:
+                assert [p.name for p in A.sap[1].dmpdu] == ['DM']
+        elif kind == 'snl_in':
+            req = [(i, b'urn:nfc:sn:u%03d' % i) for i in range(st[1])]
+            B.sendto(w.rb, pdu.ServiceNameLookup(1, 1, sdreq=req), None, DW)
+            fr = lp.xfer(B, A)
+            assert fr is not None and fr.error is None
+            assert len(A.sap[1].sdres) == st[1]
+        elif kind == 'resolve':
+            n = self.M - 2 if st[1] == 'M-2' else st[1]
+            r = lp.seq_call(lambda: A.resolve(name_of_len(n)))
+            assert r[0] == 'blocked', r
+        else:
+            raise ValueError(st)
+
+    # -- alphabet: sizes relative to the room left in an aggregated frame -----
+    def queued(self, w):
+        """Octets the PDUs waiting in A's socket send queues would take in
+        one aggregated frame (2 octets length prefix + PDU each)."""
+        t = 0
+        for s in [w.la, w.als] + w.c:
+            for p in s.send_queue:
+                t += 2 + len(p)
+        return t
+
+    def fit_sizes(self, t, hdr, top):
+        """Payload sizes for the next UI (hdr 2) / I (hdr 3) PDU: with t
+        octets already queued the PDU leaves room r in ROOMS in an aggregate
+        of everything queued (t = 0: the PDU is the first one); plus an
+        empty payload, and for an empty sender two fillers and the largest
+        legal payload."""
+        out = set([0])
+        if t == 0:
+            out.update([1, self.M // 2 - 4, top])
+        for r in ROOMS:
+            out.add(self.M - t - 2 - hdr - r)
+        return sorted(x for x in out if 0 <= x <= top)
+
+    def actions(self, w):
+        if w.dead:
+            return []
+        t = self.queued(w)
+        acts = [('sendto', x) for x in self.fit_sizes(t, 2, self.M)]
+        for i in self.DATA_DLCS:
+            if w.c[i].state.ESTABLISHED:
+                acts += [('send', i, x)
+                         for x in self.fit_sizes(t, 3, w.m[i])]
+        for i in (C0, C1, ACC):
+            q = w.c[i].recv_queue
+            if w.c[i].state.ESTABLISHED and len(q) and q[0].name == 'I':
+                acts.append(('rd', i))
+        acts.append(('xchg',))
+        return acts
+
+
+def make_spec(cfg):
+    return DeepSpec(cfg) if cfg[3] == 'deep' else Spec(cfg)
 
 
 def fields(p):
@@ -434,13 +663,30 @@ def configs(tier):
                 out.append(((M, agf, delta, 'full'), full_depth))
             for delta in (core_on if agf else core_off):
                 out.append(((M, agf, delta, 'core'), core_depth))
+    # prepared non-initial states (aggregation on)
+    for M, depth in deep_plan(tier):
+        for name, _, _ in PREPS:
+            out.append(((M, True, name, 'deep'), depth))
     return out
+
+
+def deep_plan(tier):
+    """(remote MIU, history depth from every prepared state)."""
+    if tier == 'quick':
+        return [(128, 2), (131, 2), (133, 2)]
+    return [(M, 3 if M in (128, 131, 133) else 2) for M in MIUS]
+
+
+def weight(cfg, depth):
+    """Rough relative cost (load balance only)."""
+    b = dict(full=32, core=15, deep=26)[cfg[3]]
+    return b ** depth
 
 
 def work(item):
     cfg, depth, seed = item
     run = Run(PROP)
-    spec = Spec(cfg)
+    spec = make_spec(cfg)
     spec.stats = {}
 
     def on_violation(hist, sig, detail):
@@ -448,7 +694,8 @@ def work(item):
         d['history'] = [list(a) for a in hist]
         d['depth'] = depth
         run.fail(sig, d, deviations=len(hist))
-    res = bfs.search(spec, depth, seed=seed, on_violation=on_violation)
+    res = bfs.search(spec, depth, seed=seed, on_violation=on_violation,
+                     full_check_depth=3 if cfg[3] != 'deep' else 2)
     for k, v in spec.stats.items():
         run.count(k, v)
     run.outcome((cfg[0], cfg[1]))
@@ -465,11 +712,12 @@ def work(item):
 def main(tier='quick', seed=0, part=None):
     run = Run(PROP, tier, seed, level='model_checking')
     items = [(cfg, depth, seed) for cfg, depth in configs(tier)]
-    if part:
-        items = [it for it in items if str(it[0][0]) == part]
+    if part:          # debugging: a remote MIU, an alphabet or a prepared state
+        items = [it for it in items
+                 if part in (str(it[0][0]), it[0][3], str(it[0][2]))]
     # big configurations first for load balance; seed permutes ties only
     items = par.shuffled(items, seed)
-    items.sort(key=lambda it: -(it[1] * 10 + (it[0][3] == 'full')))
+    items.sort(key=lambda it: -weight(it[0], it[1]))
     tot = dict(states=0, transitions=0, sound_checks=0, replay_steps=0,
                state_checks=0)
     per = []
@@ -487,6 +735,7 @@ def main(tier='quick', seed=0, part=None):
         for r in per[:3]:
             run.sample(r)
     run.sample(sample_trace())
+    run.sample(sample_trace_deep())
     run.rule = ("state = canonical dump of both controllers, their SAPs and "
                 "sockets after a history of operations; distinct = distinct "
                 "dump per configuration (M, agf, delta, alphabet); every "
@@ -498,6 +747,13 @@ def main(tier='quick', seed=0, part=None):
         "sizes are the boundary sets {0,1,X-delta,X+1}, one delta per "
         "configuration (X = Link MIU for sendto, connection MIU for send); "
         "payload bytes are position coded",
+        "prepared states (alphabet 'deep'): built by the real calls listed in "
+        "prepared_state_table on top of the initial world plus a connection "
+        "accepted on SAP 33; alphabet there = sendto (SAP 32) / send on the "
+        "connections of SAP 33 and 34 with sizes {0} + {the sizes that leave "
+        "room 0..5 in one aggregate of everything queued} (+ {1, M/2-4, "
+        "largest legal} while nothing is queued), recv of a queued I PDU, "
+        "one link round",
         "no data protection (sec=False), no raw access point socket at the "
         "sender (excepted by the statement)",
         "blocking halves of resolve()/close() are not run: the caller is "
@@ -506,6 +762,7 @@ def main(tier='quick', seed=0, part=None):
     ]
     fulls = [r for r in per if r['cfg'][3] == 'full']
     cores = [r for r in per if r['cfg'][3] == 'core']
+    deeps = [r for r in per if r['cfg'][3] == 'deep']
     run.extra['bounds'] = dict(
         remote_miu=list(MIUS), aggregation=[True, False],
         configurations=len(per),
@@ -515,9 +772,24 @@ def main(tier='quick', seed=0, part=None):
         core_alphabet=dict(
             configs=len(cores), history_depth=cores[0]['depth'] if cores else 0,
             deltas=sorted(set(r['cfg'][2] for r in cores))),
+        prepared_states=dict(
+            configs=len(deeps), aggregation=[True],
+            remote_miu=sorted(set(r['cfg'][0] for r in deeps)),
+            rooms_left_by_next_pdu=list(ROOMS),
+            data_on_sap=[32, 33, 34], acknowledgements_owed_on_sap=[33, 34, 35],
+            states=sum(r['states'] for r in deeps),
+            transitions=sum(r['transitions'] for r in deeps),
+            per_prepared_state=[dict(
+                remote_miu=r['cfg'][0], prepared_state=r['cfg'][2],
+                history_depth=r['depth'], depth_completed=r['depth_completed'],
+                frontier_exhausted=r['exhausted'], states=r['states'],
+                transitions=r['transitions']) for r in deeps]),
         depth_completed_everywhere=all_done,
         frontier_exhausted=all(r['exhausted'] for r in per),
         drain_rounds_cap=80)
+    run.extra['prepared_state_table'] = [
+        dict(name=n, rw_local_of_accepted_connection=rw,
+             steps=[list(x) for x in st]) for n, rw, st in PREPS]
     run.extra['soundness'] = dict(snapshot_vs_replay_checks=tot['sound_checks'],
                                   replay_steps=tot['replay_steps'])
     cov = dict(states=tot['states'], transitions=tot['transitions'],
@@ -542,10 +814,21 @@ def sample_trace():
     return dict(cfg=spec.cfg, history=hist, frames_when_drained=tr)
 
 
+def sample_trace_deep():
+    """One written-out case from a prepared state: two datagrams that leave
+    one octet of room, acknowledgement owed on SAP 33 (goes out next)."""
+    spec = DeepSpec((131, True, 'acc1.read', 'deep'))
+    hist = [('sendto', 60), ('sendto', 62)]
+    w, _ = bfs.replay(spec, hist)
+    tr = []
+    spec.check_state(w, trace=tr)
+    return dict(cfg=spec.cfg, history=hist, frames_when_drained=tr)
+
+
 def replay(doc):
     d = doc['detail']
     cfg = tuple(d['cfg'])
-    spec = Spec(cfg)
+    spec = make_spec(cfg)
     hist = [tuple(a) for a in d['history']]
     print("C10 replay cfg(M, agf, delta, alphabet)=%r history=%r" % (cfg, hist))
     w = spec.init()
